@@ -241,10 +241,13 @@ public:
 
     //! \brief Read the stored samples from the stream
     void read(std::istream &is){
-        points.resize(IO::readNumber<IO::mode_binary_type, size_t>(is));
-        values.resize(IO::readNumber<IO::mode_binary_type, size_t>(is));
-        IO::readVector<IO::mode_binary_type>(is, points);
-        IO::readVector<IO::mode_binary_type>(is, values);
+        // read into temporaries, a failed (truncated) read must not leave partially loaded data
+        size_t num_points = IO::readNumber<IO::mode_binary_type, size_t>(is);
+        size_t num_values = IO::readNumber<IO::mode_binary_type, size_t>(is);
+        std::vector<double> new_points = IO::readVector<IO::mode_binary_type, double>(is, num_points);
+        std::vector<double> new_values = IO::readVector<IO::mode_binary_type, double>(is, num_values);
+        points = std::move(new_points);
+        values = std::move(new_values);
     }
 
     //! \brief Add a point to the stored list.
